@@ -29,7 +29,7 @@ Lemma cfg_good_eq c : cfg_goodb c = true -> c = std_cfg.
 Proof.
   unfold cfg_goodb, cfg_eqb. intros H.
   repeat match type of H with (_ && _ = true) => apply andb_prop in H; destruct H as [H ?] end.
-  destruct c as [a b d sf vs st la dv sh]. cbn [sep_from sep_to split_ch suffixes values star line_anchors default_verdict shape] in *.
+  destruct c as [a b d sf vs st la dv sh]. cbn [sep_from sep_to split_ch suffixes values star matcher default_verdict shape] in *.
   apply N.eqb_eq in H. subst a.
   repeat match goal with
          | Hx : (_ =? _) = true |- _ => apply N.eqb_eq in Hx
@@ -43,6 +43,7 @@ Proof.
   { eapply list_eqb_eq; [|eassumption]. intros [x1 x2] [y1 y2] E. cbn in E.
     apply andb_prop in E as [E1 E2]. apply seqb_eq in E1. apply Bool.eqb_prop in E2. congruence. }
   subst sf vs.
+  match goal with Hm : matcher_eqb ?m _ = true |- _ => destruct m; try discriminate Hm end.
   destruct sh; [reflexivity|discriminate].
 Qed.
 
@@ -209,6 +210,205 @@ Proof.
     + intros ->. constructor; [exact Hc|]. apply IH; [exact Hp|reflexivity].
 Qed.
 
+
+(* ------------------------------------------------------------------ the iterative matcher
+   (wildcardMatch) decides the declarative glob relation *)
+Section Iter.
+  Variable st : N.
+  Definition starfree (l : str) : Prop := ~ In st l.
+
+  Lemma Glob_star_inv q s : Glob st (st :: q) s -> exists s1 s2, s = s1 ++ s2 /\ Glob st q s2.
+  Proof. inversion 1 as [| |p0 s1 s2 Hg]; subst; [congruence|]. eauto. Qed.
+
+  Lemma Glob_cancel lits p s : starfree lits -> (Glob st (lits ++ p) (lits ++ s) <-> Glob st p s).
+  Proof.
+    unfold starfree. induction lits as [|c l IH]; intros Hn; [reflexivity|]. cbn [app].
+    assert (Hc : c <> st) by (intros ->; apply Hn; left; reflexivity).
+    assert (Hl : ~ In st l) by (intros H; apply Hn; right; exact H).
+    split.
+    - inversion 1 as [|c0 p0 s0 _ Hg|]; subst; [|congruence]. apply IH; assumption.
+    - intros H. constructor; [exact Hc|]. apply IH; assumption.
+  Qed.
+
+  Lemma Glob_lits_prefix lits q w : starfree lits -> Glob st (lits ++ q) w -> exists w3, w = lits ++ w3 /\ Glob st q w3.
+  Proof.
+    unfold starfree. revert w. induction lits as [|c l IH]; intros w Hn H.
+    - exists w. split; [reflexivity|exact H].
+    - cbn [app] in H. assert (Hc : c <> st) by (intros ->; apply Hn; left; reflexivity).
+      inversion H as [|c0 p0 s0 _ Hg|]; subst; [|congruence].
+      destruct (IH s0) as (w3 & -> & Hw); [intros Hi; apply Hn; right; exact Hi|exact Hg|].
+      exists w3. split; [reflexivity|exact Hw].
+  Qed.
+
+  Lemma Glob_star_absorb q z s : Glob st (st :: q) s -> Glob st (st :: q) (z ++ s).
+  Proof. intros H. apply Glob_star_inv in H as (s1 & s2 & -> & Hg). rewrite app_assoc. apply GStar, Hg. Qed.
+
+  Lemma Glob_star_cons q y s : Glob st (st :: q) (y :: s) <-> Glob st q (y :: s) \/ Glob st (st :: q) s.
+  Proof.
+    split.
+    - intros H. apply Glob_star_inv in H as (s1 & s2 & E & Hg). destruct s1 as [|a s1]; cbn [app] in E.
+      + left. rewrite E. exact Hg.
+      + right. injection E as _ ->. apply GStar, Hg.
+    - intros [H|H].
+      + apply (GStar st q [] (y :: s) H).
+      + apply (Glob_star_absorb q [y] s H).
+  Qed.
+
+  Lemma app_suffix (a : str) : forall b c d, a ++ b = c ++ d -> (length d <= length b)%nat -> exists z, b = z ++ d.
+  Proof.
+    induction a as [|x a IH]; intros b c d E Hl; cbn [app] in E.
+    - exists c. exact E.
+    - destruct c as [|y c]; cbn [app] in E.
+      + exfalso. apply (f_equal (@length N)) in E. cbn [length] in E. rewrite app_length in E. lia.
+      + injection E as _ E. eapply IH; eassumption.
+  Qed.
+
+  (* greedy star: the literal run after the most recent star has been matched at the leftmost place *)
+  Lemma greedy lits q tr : starfree lits -> Glob st (st :: lits ++ q) (lits ++ tr) ->
+    exists z w3, tr = z ++ w3 /\ Glob st q w3.
+  Proof.
+    intros Hn H. apply Glob_star_inv in H as (s1 & s2 & E & Hg).
+    apply (Glob_lits_prefix _ _ _ Hn) in Hg as (w3 & -> & Hw).
+    rewrite app_assoc in E. apply app_suffix in E as [z Ez].
+    - exists z, w3. split; [exact Ez|exact Hw].
+    - apply (f_equal (@length N)) in E. rewrite !app_length in E. lia.
+  Qed.
+
+  Lemma drop_stars_spec p : Glob st p [] <-> drop_stars st p = [].
+  Proof.
+    induction p as [|c p IH]; cbn [drop_stars].
+    - split; [reflexivity|constructor].
+    - destruct (N.eqb_spec c st) as [->|Hc].
+      + rewrite <- IH. split.
+        * intros H. apply Glob_star_inv in H as (s1 & s2 & E & Hg). symmetry in E. apply app_eq_nil in E as [_ ->]. exact Hg.
+        * intros H. apply (GStar st p [] [] H).
+      + split; [|discriminate]. inversion 1; subst; congruence.
+  Qed.
+
+  Definition Inv (P T pr tr : str) (star : option (str * str)) : Prop :=
+    match star with
+    | None => exists lits, starfree lits /\ P = lits ++ pr /\ T = lits ++ tr
+    | Some (sp, mt) =>
+      exists lits, starfree lits /\ sp = lits ++ pr /\ mt = lits ++ tr /\
+                   (Glob st P T <-> Glob st (st :: sp) mt) /\
+                   (length sp <= length P)%nat /\ (length mt <= length T)%nat
+    end.
+  Definition mu (P T pr : str) (star : option (str * str)) : nat :=
+    ((match star with None => length T + 1 | Some (_, mt) => length mt end) * (length P + 1) + length pr)%nat.
+
+  (* from the current attempt: Glob P T reduces to the rest of the attempt or to retrying after the star *)
+  Lemma Inv_meaning P T pr tr star : Inv P T pr tr star ->
+    (Glob st P T <-> Glob st pr tr \/
+       match star with Some (sp, mt) => Glob st (st :: sp) (tl mt) /\ mt <> [] | None => False end).
+  Proof.
+    destruct star as [[sp mt]|]; cbn [Inv].
+    - intros (lits & Hn & -> & -> & Hiff & _ & _). rewrite Hiff.
+      destruct (lits ++ tr) as [|y m] eqn:E.
+      + split.
+        * intros H. left. rewrite <- E in H. destruct (greedy _ _ _ Hn H) as (z & w3 & Ez & Hw).
+          assert (tr = []) as -> by (destruct lits; [exact E|discriminate]).
+          symmetry in Ez. apply app_eq_nil in Ez as [_ ->]. exact Hw.
+        * intros [H|[_ H]]; [|contradiction]. rewrite <- E. apply (GStar st _ [] _). apply Glob_cancel; assumption.
+      + rewrite Glob_star_cons. cbn [tl]. rewrite <- E, (Glob_cancel _ _ _ Hn). split.
+        * intros [H|H]; [left; exact H|right; split; [exact H|rewrite E; discriminate]].
+        * intros [H|[H _]]; [left; exact H|right; exact H].
+    - intros (lits & Hn & -> & ->). rewrite (Glob_cancel _ _ _ Hn). tauto.
+  Qed.
+
+  Lemma run_correct : forall fuel P T pr tr star, Inv P T pr tr star -> (mu P T pr star < fuel)%nat ->
+    exists b, glob_iter_run st fuel pr tr star = Some b /\ (b = true <-> Glob st P T).
+  Proof.
+    induction fuel as [|f IH]; intros P T pr tr star HI Hmu; [lia|].
+    pose proof (Inv_meaning _ _ _ _ _ HI) as Hmean.
+    destruct tr as [|x tr'].
+    - (* the loop ends; trailing stars; p == size *)
+      cbn [glob_iter_run]. eexists. split; [reflexivity|].
+      assert (Hend : Glob st P T <-> Glob st pr []).
+      { rewrite Hmean. split; [|tauto]. intros [H|H]; [exact H|].
+        destruct star as [[sp mt]|]; [|contradiction]. destruct H as [H Hne].
+        cbn [Inv] in HI. destruct HI as (lits & Hn & -> & -> & _).
+        rewrite app_nil_r in *. destruct lits as [|y l]; [contradiction|]. cbn [tl] in H.
+        (* star ++ lits ++ pr against a text shorter than lits: impossible *)
+        exfalso. apply Glob_star_inv in H as (s1 & s2 & E & Hg).
+        apply (Glob_lits_prefix _ _ _ Hn) in Hg as (w3 & -> & _).
+        apply (f_equal (@length N)) in E. rewrite !app_length in E. cbn [length] in E. lia. }
+      rewrite Hend, drop_stars_spec. destruct (drop_stars st pr); split; congruence.
+    - (* backtracking, shared by the two branches that reach it *)
+      assert (Hbt : ~ Glob st pr (x :: tr') ->
+                    exists b, match star with
+                              | Some (sp, mt) => glob_iter_run st f sp (tl mt) (Some (sp, tl mt))
+                              | None => Some false
+                              end = Some b /\ (b = true <-> Glob st P T)).
+      { intros Hno. destruct star as [[sp mt]|].
+        - cbn [Inv] in HI. destruct HI as (lits & Hn & Esp & Emt & Hiff & Hls & Hlm).
+          assert (Hne : mt <> []) by (rewrite Emt; destruct lits; discriminate).
+          destruct mt as [|y mt1]; [contradiction|]. cbn [tl] in *.
+          apply IH.
+          + cbn [Inv]. exists []. cbn [app]. repeat split; try assumption.
+            * unfold starfree. intros [].
+            * rewrite Hmean. intros [H|[H _]]; [contradiction|exact H].
+            * intros H. apply Hmean. right. split; [exact H|discriminate].
+            * cbn [length] in Hlm. lia.
+          + unfold mu in *. cbn [length] in *. nia.
+        - exists false. split; [reflexivity|]. rewrite Hmean. split; [discriminate|tauto]. }
+      destruct pr as [|c pr'].
+      + cbn [glob_iter_run]. apply Hbt. inversion 1.
+      + cbn [glob_iter_run]. destruct (N.eqb_spec c st) as [->|Hc].
+        * (* a wildcard: star = p++, mark = t *)
+          apply IH.
+          -- cbn [Inv]. exists []. cbn [app]. split; [intros []|]. split; [reflexivity|]. split; [reflexivity|].
+             destruct star as [[sp mt]|]; cbn [Inv] in HI.
+             ++ destruct HI as (lits & Hn & -> & -> & Hiff & Hls & Hlm). rewrite Hiff. split; [split|].
+                ** intros H. destruct (greedy _ _ _ Hn H) as (z & w3 & -> & Hw). apply Glob_star_absorb, Hw.
+                ** intros H. apply (GStar st _ [] _). apply Glob_cancel; assumption.
+                ** rewrite !app_length in *. cbn [length] in *. lia.
+             ++ destruct HI as (lits & Hn & -> & ->). split; [apply Glob_cancel; exact Hn|].
+                rewrite !app_length. cbn [length]. lia.
+          -- unfold mu in *. destruct star as [[sp mt]|]; cbn [Inv] in HI.
+             ++ destruct HI as (lits & _ & _ & -> & _). rewrite app_length in *. cbn [length] in *. nia.
+             ++ destruct HI as (lits & _ & _ & ->). rewrite app_length in *. cbn [length] in *. nia.
+        * destruct (N.eqb_spec c x) as [->|Hx].
+          -- (* equal characters: ++p, ++t *)
+             apply IH.
+             ++ destruct star as [[sp mt]|]; cbn [Inv] in *.
+                ** destruct HI as (lits & Hn & -> & -> & Hiff & Hls & Hlm). exists (lits ++ [x]).
+                   rewrite <- !app_assoc. cbn [app]. repeat split; try assumption; try apply Hiff.
+                   unfold starfree in *. rewrite in_app_iff. intros [H|[H|[]]]; [exact (Hn H)|congruence].
+                ** destruct HI as (lits & Hn & -> & ->). exists (lits ++ [x]). rewrite <- !app_assoc. cbn [app].
+                   repeat split. unfold starfree in *. rewrite in_app_iff. intros [H|[H|[]]]; [exact (Hn H)|congruence].
+             ++ unfold mu in *. cbn [length] in *. lia.
+          -- apply Hbt. inversion 1; subst; congruence.
+  Qed.
+
+  Lemma glob_iter_correct p s : exists b, glob_iter st p s = Some b /\ (b = true <-> Glob st p s).
+  Proof.
+    unfold glob_iter. apply run_correct.
+    - cbn [Inv]. exists []. repeat split. intros [].
+    - unfold mu, glob_fuel. nia.
+  Qed.
+End Iter.
+
+(* totality: the fuel of [glob_iter] is never exhausted *)
+Lemma glob_iter_total st p s : exists b, glob_iter st p s = Some b.
+Proof. destruct (glob_iter_correct st p s) as (b & H & _). eauto. Qed.
+Lemma glob_iter_sound_complete st p s b : glob_iter st p s = Some b -> (b = true <-> Glob st p s).
+Proof. intros H. destruct (glob_iter_correct st p s) as (b' & H' & Hb). congruence. Qed.
+Lemma iter_match_iff st p s : iter_match st p s = true <-> Glob st p s.
+Proof. unfold iter_match. destruct (glob_iter_correct st p s) as (b & -> & Hb). exact Hb. Qed.
+
+(* the iterative matcher computes exactly what the recursive [glob] computes *)
+Lemma iter_match_glob st p s : iter_match st p s = glob st p s.
+Proof.
+  destruct (iter_match st p s) eqn:E1, (glob st p s) eqn:E2; try reflexivity; exfalso.
+  - apply iter_match_iff, glob_complete in E1. congruence.
+  - apply glob_sound, iter_match_iff in E2. congruence.
+Qed.
+Lemma glob_iter_agrees st p s : glob_iter st p s = Some (glob st p s).
+Proof.
+  pose proof (iter_match_glob st p s) as H. unfold iter_match in H.
+  destruct (glob_iter_total st p s) as [b Hb]. rewrite Hb in *. congruence.
+Qed.
+
 (* ------------------------------------------------------------------ splitting *)
 Lemma split_on_app sep a c b : sep c = true ->
   split_on sep (a ++ c :: b) = split_on sep a ++ split_on sep b.
@@ -247,7 +447,7 @@ Proof. unfold parse_rules, spec_rules. rewrite split_rules_spec. reflexivity. Qe
 Lemma model_is_spec_std rules cat t : category_filter std_cfg rules cat t = spec_verdict rules cat t.
 Proof.
   unfold category_filter, spec_verdict, filter_rules, spec_decision, spec_matches.
-  cbn [shape default_verdict line_anchors star std_cfg].
+  cbn [shape default_verdict matcher star std_cfg].
   rewrite last_match_wins_gen, parse_rules_spec. reflexivity.
 Qed.
 
@@ -356,16 +556,19 @@ Section Good.
 
   Lemma good_last_match_wins rs c t :
     filter_rules cfg rs c t =
-    match find (fun r => rule_matches (line_anchors cfg) (star cfg) r c t) (rev rs) with
+    match find (fun r => rule_matches (matcher cfg) (star cfg) r c t) (rev rs) with
     | Some r => enabled r | None => true end.
-  Proof. rewrite (cfg_good_eq cfg good). unfold filter_rules. cbn [shape default_verdict line_anchors star std_cfg]. apply last_match_wins_gen. Qed.
+  Proof. rewrite (cfg_good_eq cfg good). unfold filter_rules. cbn [shape default_verdict matcher star std_cfg]. apply last_match_wins_gen. Qed.
 
   Lemma good_rule_matches r c t :
-    rule_matches (line_anchors cfg) (star cfg) r c t = glob 42 (pat r) c && concerns t r.
-  Proof. rewrite (cfg_good_eq cfg good). reflexivity. Qed.
+    rule_matches (matcher cfg) (star cfg) r c t = glob 42 (pat r) c && concerns t r.
+  Proof.
+    rewrite (cfg_good_eq cfg good). unfold rule_matches, pattern_matches. cbn [matcher star std_cfg].
+    rewrite iter_match_glob. reflexivity.
+  Qed.
 
   Lemma good_rule_matches_meaning r c t :
-    rule_matches (line_anchors cfg) (star cfg) r c t = true <->
+    rule_matches (matcher cfg) (star cfg) r c t = true <->
     Glob 42 (pat r) c /\ (rtype r = None \/ rtype r = Some t).
   Proof.
     rewrite good_rule_matches, andb_true_iff, glob_iff. unfold concerns.
@@ -378,17 +581,17 @@ Section Good.
 
   Lemma good_later_rule_overrides rs r c t :
     filter_rules cfg (rs ++ [r]) c t =
-    if rule_matches (line_anchors cfg) (star cfg) r c t then enabled r else filter_rules cfg rs c t.
-  Proof. rewrite (cfg_good_eq cfg good). unfold filter_rules. cbn [shape default_verdict line_anchors star std_cfg]. apply decide_snoc. Qed.
+    if rule_matches (matcher cfg) (star cfg) r c t then enabled r else filter_rules cfg rs c t.
+  Proof. rewrite (cfg_good_eq cfg good). unfold filter_rules. cbn [shape default_verdict matcher star std_cfg]. apply decide_snoc. Qed.
 
   Lemma good_no_match_passes rs c t :
-    (forall r, In r rs -> rule_matches (line_anchors cfg) (star cfg) r c t = false) -> filter_rules cfg rs c t = true.
-  Proof. rewrite (cfg_good_eq cfg good). unfold filter_rules. cbn [shape default_verdict line_anchors star std_cfg]. apply decide_none. Qed.
+    (forall r, In r rs -> rule_matches (matcher cfg) (star cfg) r c t = false) -> filter_rules cfg rs c t = true.
+  Proof. rewrite (cfg_good_eq cfg good). unfold filter_rules. cbn [shape default_verdict matcher star std_cfg]. apply decide_none. Qed.
 
   Lemma good_typed_other_type rs1 r rs2 c t t' :
     rtype r = Some t' -> t' <> t -> filter_rules cfg (rs1 ++ r :: rs2) c t = filter_rules cfg (rs1 ++ rs2) c t.
   Proof.
-    intros H Hne. unfold filter_rules. rewrite (cfg_good_eq cfg good). cbn [shape default_verdict line_anchors star std_cfg].
+    intros H Hne. unfold filter_rules. rewrite (cfg_good_eq cfg good). cbn [shape default_verdict matcher star std_cfg].
     apply decide_skip. eapply typed_other_no_match; eassumption.
   Qed.
 
@@ -399,7 +602,7 @@ Section Good.
   Qed.
 
   Lemma good_only_concerned rs c t : filter_rules cfg rs c t = filter_rules cfg (filter (concerns t) rs) c t.
-  Proof. unfold filter_rules. rewrite (cfg_good_eq cfg good). cbn [shape default_verdict line_anchors star std_cfg]. apply decide_only_concerned. Qed.
+  Proof. unfold filter_rules. rewrite (cfg_good_eq cfg good). cbn [shape default_verdict matcher star std_cfg]. apply decide_only_concerned. Qed.
 
   Lemma good_fatal_untyped_only rules c :
     category_filter cfg rules c Fatal = filter_rules cfg (filter untyped (parse_rules cfg rules)) c Fatal.
